@@ -111,6 +111,8 @@ class AWorld:
             self.env.fault_kinds = fault_kinds
         self.net = sim.Net(self.env, router, clock=self.loop.time)
         self.net.task_namer = self._task_name
+        from . import vclock
+        vclock.install(self.loop.time)
         self.backend = sim.AsyncSimBackend(self.net)
         self.cancels = cancels
         self.cancel_styles = tuple(cancel_styles)
